@@ -150,16 +150,9 @@ def timeDetect (toks : List TI) (i : Nat) (t : TI) : Option (List Char × List N
   let meridianIndex := if merged.isSome then i + 2 else i + 1
   let hasColon := merged.isSome || t.colon
   let dotAfter := if merged.isSome then t.hmDotAfter else t.dotAfterSame
-  let micro : Option (List Char) :=
-    match toks[i+1]? with
-    | none => none
-    | some nx => match nx.micro with
-      | none => none
-      | some ms => if hasColon && dotAfter then some ms else none
+  let micro : Option (List Char) := if hasColon && dotAfter then (toks[i+1]?).bind TI.micro else none
   let meridianIndex := if micro.isSome then meridianIndex + 1 else meridianIndex
-  let meridian : Option (List Char) := match toks[meridianIndex]? with
-    | none => none
-    | some mt => mt.merid
+  let meridian : Option (List Char) := (toks[meridianIndex]?).bind TI.merid
   if hasColon || meridian.isSome || micro.isSome then
     let (tt, sk) := match meridian, micro with
       | some me, none => (token ++ [' '] ++ me, [meridianIndex])
